@@ -656,23 +656,31 @@ func (c *Context) Cbrt(d, x *Decimal) (Condition, error) {
 		}
 	}
 
-	z0.Set(x)
+	// z is an approximation of the root, so it must not be rounded in a directed
+	// mode before it is known whether the root is exact: a perfect cube's iterate
+	// can sit just above or below its root. Round it to the nearest candidate,
+	// and check that candidate with exact (unlimited precision) arithmetic; its
+	// cube has up to three times the precision in digits.
+	nearest := c.WithPrecision(c.Precision)
+	nearest.Rounding = RoundHalfEven
+	var cand, cube Decimal
+	nearest.round(&cand, &z)
+	exact := MakeErrDecimal(&BaseContext)
+	exact.Mul(&cube, &cand, &cand)
+	exact.Mul(&cube, &cube, &cand)
+	if err := exact.Err(); err != nil {
+		return 0, err
+	}
+	if cube.Cmp(&ax) == 0 {
+		// Result is exact
+		d.Set(&cand)
+		d.Negative = neg
+		return 0, nil
+	}
+
 	res := c.round(d, &z)
 	res, err := c.goError(res)
 	d.Negative = neg
-
-	// Set z = d^3 to check for exactness.
-	ed.Mul(&z, d, d)
-	ed.Mul(&z, &z, d)
-
-	if err := ed.Err(); err != nil {
-		return 0, err
-	}
-
-	// Result is exact
-	if z0.Cmp(&z) == 0 {
-		return 0, nil
-	}
 	return res, err
 }
 
